@@ -222,3 +222,15 @@ Theorem C37_successor_traversal_fuel_irrelevant :
   forall d d' sd n l, d <= d' -> succ_all d sd n = Ok l -> succ_all d' sd n = Ok l.
 Proof. exact succ_all_fuel_irrelevant. Qed.
 Print Assumptions C37_successor_traversal_fuel_irrelevant.
+
+(* ------------------------------------------------------------------------------------------
+   A step towards the positive statement for remove_successors_nodes: the followers it removes
+   are exactly the nodes of the graph met by the traversal, each once — so every
+   remove_nodes(nd, check_ready=False) it issues names a node of the graph not named before. *)
+From Pydra Require Import Proofs.GraphFollowers.
+
+Theorem C37_followers_spec :
+  forall ns all, NoDup (collect_followers ns all []) /\
+                 (forall x, In x (collect_followers ns all []) <-> In x all /\ In x ns).
+Proof. exact followers_spec. Qed.
+Print Assumptions C37_followers_spec.
